@@ -99,19 +99,28 @@ IsTimer(h) == DH[h].kind = "timer"
 NoRun == [on |-> FALSE, started |-> FALSE, exited |-> FALSE, flag |-> FALSE, when |-> 0, seen |-> FALSE,
           cset |-> FALSE, creq |-> FALSE, cdel |-> FALSE, aband |-> FALSE, sd |-> {}]
 
+\* an operator may also have a raw-event handler that returns a result on every event (optional conf.res.ev): the accumulated patch is
+\* then never empty when the consistency of the view is judged -- no waiting for the echo, and no change handlers on a view that is
+\* not known to be consistent (not even after the timeout: a new patch goes out, with a new expectation)
+\* conf.res.ev: "off" | "mirror" (the result is the essence the handler saw) | "const" (always the same result)
+EvOn == "res" \in DOMAIN conf /\ "ev" \in DOMAIN conf.res /\ conf.res.ev # "off"
+EvVal(s) == IF conf.res.ev = "const" THEN 1 ELSE s.ess
+\* the idle timeout of the workers (queueing.idle_timeout); a worker that expects a version lives at least until the consistency time
+IdleT == IF "res" \in DOMAIN conf /\ "idle" \in DOMAIN conf.res THEN conf.res.idle ELSE CTimeout
 NoCyc == [s |-> [type |-> "none"], reason |-> "none", initial |-> FALSE, sel |-> {}, plan |-> <<>>, np |-> [h \in H |-> NoRec],
           purge |-> FALSE, inv |-> {}, fns |-> {}, req |-> [k |-> "none"], fresh |-> 0, ffins |-> <<>>, rv |-> 0, rem |-> {}, gone |-> FALSE, delays |-> {}, skipped |-> FALSE,
           wake |-> 0, last |-> [h |-> "none"],
           todo |-> {}, cur |-> "none", ph |-> "none", age |-> 0, sdelays |-> {}, ct |-> 0,      \* the stopping of daemons: see StopSet / Stage
           sub |-> [p |-> "none", plan |-> <<>>],                                               \* the sub-handlers of the handler that is running
-          res |-> [h \in H |-> 0]]                                                              \* results returned in this cycle (0: none): status.<handler id>
+          res |-> [h \in H |-> 0],                                                              \* results returned in this cycle (0: none): status.<handler id>
+          evres |-> 0]                                                                          \* the result of the raw-event handler: the essence it saw
 FreshMem == [known |-> FALSE, nbl |-> FALSE, fho |-> FALSE, rem |-> {}, forever |-> {}, run |-> [h \in DHs |-> NoRun]]
-FreshWk == [exp |-> 0, ctime |-> 0, pr |-> FALSE, eos |-> FALSE]      \* eos: the end-of-stream marker sits behind what is queued
+FreshWk == [exp |-> 0, ctime |-> 0, pr |-> FALSE, eos |-> FALSE, since |-> 0, lost |-> 0]      \* lost (ghost): the expectation that ended with an idle worker      \* eos: the end-of-stream marker sits behind what is queued
 
 Init ==
   /\ conf \in ConfSet
   /\ obj = [exists |-> TRUE, rv |-> 1, ess |-> 1, lh |-> 0, prog |-> [h \in H |-> NoRec], fins |-> <<>>,
-            deleting |-> FALSE, dummy |-> 0, match |-> TRUE, res |-> [h \in H |-> 0]]
+            deleting |-> FALSE, dummy |-> 0, match |-> TRUE, res |-> [h \in H |-> 0], evres |-> 0]
   /\ chan = <<>>
   /\ bl = << [type |-> "ADDED", rv |-> 1, ess |-> 1, lh |-> 0, prog |-> [h \in H |-> NoRec], fins |-> <<>>,
               deleting |-> FALSE, match |-> TRUE, dummy |-> FALSE] >>
@@ -292,10 +301,12 @@ Decision(s, m1, ct, sd) ==
       fns == rem0 \cup (IF addK THEN {"add"} ELSE {}) \cup (IF delK THEN {"del"} ELSE {})
       reason2 == IF addK \/ delK THEN "none" ELSE reason1
       required == reason2 # "none"
-      achieved0 == ct = 0 \/ ct <= now \/ reason2 = "gone"
-  IN [stale |-> (ct # 0 /\ ct <= now /\ reason2 \in HandlerReasons /\ fns = {} /\ rem0 = {}),
-      pc |-> IF required /\ ~achieved0 /\ fns = {} THEN "cwait" ELSE "plan",
-      cyc |-> IF required /\ ~achieved0 /\ fns = {}
+      \* (with a patch already accumulated the wait is not even entered: an elapsed timeout does not make the view consistent then)
+      achieved0 == ct = 0 \/ (ct <= now /\ ~EvOn) \/ reason2 = "gone"
+  IN [stale |-> (ct # 0 /\ ct <= now /\ reason2 \in HandlerReasons /\ fns = {} /\ rem0 = {} /\ ~EvOn),
+      hr |-> (reason2 \in HandlerReasons /\ fns = {} /\ rem0 = {}),      \* the change handlers get their turn in this cycle (if the view is taken as consistent)
+      pc |-> IF required /\ ~achieved0 /\ fns = {} /\ ~EvOn THEN "cwait" ELSE "plan",
+      cyc |-> IF required /\ ~achieved0 /\ fns = {} /\ ~EvOn
               THEN \* wait for the echo of the own patch (interruptible by newer events)
                    [NoCyc EXCEPT !.s = s, !.reason = reason2, !.wake = ct, !.fns = fns, !.sdelays = sd]
               ELSE IF required /\ ~(achieved0 /\ rem0 = {})
@@ -321,11 +332,12 @@ ProcBegin ==
      IN
      /\ bl' = Tail(bl)
      \* (the pressure is relieved only when the backlog is empty: not while the end-of-stream marker of an exiting watcher is in it)
-     /\ wk' = [exp |-> IF echo THEN 0 ELSE wk.exp, ctime |-> ct, pr |-> IF Tail(bl) = <<>> /\ ~wk.eos THEN FALSE ELSE wk.pr, eos |-> wk.eos]
+     /\ wk' = [exp |-> IF echo THEN 0 ELSE wk.exp, ctime |-> ct, pr |-> IF Tail(bl) = <<>> /\ ~wk.eos THEN FALSE ELSE wk.pr, eos |-> wk.eos, since |-> 0, lost |-> IF wk.lost = s.rv THEN 0 ELSE wk.lost]
      \* (memories.forget on DELETED: the instances that are running - and those this very cycle spawns - are out of sight from now on)
      /\ mem' = IF gone THEN FreshMem ELSE [m1 EXCEPT !.run = run1]
      /\ IF DReg = {}
-        THEN pc' = d.pc /\ cyc' = d.cyc /\ gh' = [gh EXCEPT !.staleview = @ \/ d.stale]
+        THEN pc' = d.pc /\ cyc' = [d.cyc EXCEPT !.evres = IF EvOn THEN EvVal(s) ELSE 0]
+             /\ gh' = [gh EXCEPT !.staleview = @ \/ d.stale \/ (wk.lost \notin {0, s.rv} /\ d.hr)]
         ELSE /\ pc' = "stop"
              /\ cyc' = [NoCyc EXCEPT !.s = s, !.todo = IF gone THEN {} ELSE tostop, !.ct = ct]
              /\ gh' = [gh EXCEPT !.orph = @ \/ (gone /\ (mine # {} \/ tospawn # {})),
@@ -366,7 +378,7 @@ StageC(h) ==
 Decide ==         \* the daemons are dealt with: on to the finalizer decisions and the consistency verdict
   /\ up /\ pc = "stop" /\ cyc.cur = "none" /\ cyc.todo = {}
   /\ LET d == Decision(cyc.s, mem, cyc.ct, cyc.sdelays)
-     IN pc' = d.pc /\ cyc' = d.cyc /\ gh' = [gh EXCEPT !.staleview = @ \/ d.stale]
+     IN pc' = d.pc /\ cyc' = d.cyc /\ gh' = [gh EXCEPT !.staleview = @ \/ d.stale \/ (wk.lost # 0 /\ d.hr)]
   /\ UNCHANGED <<obj, chan, bl, up, stopping, mem, wk, now, bud>>
   /\ UNCHANGED conf
 
@@ -502,7 +514,7 @@ ProcFinish ==
                     \cup cyc.sdelays           \* ... and what the stopping of daemons asked for
          release == s.type # "DELETED" /\ s.deleting /\ Blocked(s) /\ cdelays = {} /\ ~cyc.skipped
          fns == cyc.fns \cup (IF release THEN {"del"} ELSE {})
-         resAny == \E h \in H : cyc.res[h] # 0          \* deliver_results: status.<id> = result, whatever is there
+         resAny == (\E h \in H : cyc.res[h] # 0) \/ cyc.evres # 0          \* deliver_results: status.<id> = result, whatever is there
          nonempty == progChanged \/ lhNew # 0 \/ fns # {} \/ resAny
          \* apply(): a non-empty patch also clears the touch dummy -- if the view has one
          \* (with the status subresource the status part travels in a request of its own: hasMerge is about the body part)
@@ -537,12 +549,13 @@ SrvMerge ==
                                         [] OTHER -> obj.prog[h]]
               o2 == [obj EXCEPT !.prog = newprog, !.lh = IF r.lh # 0 THEN r.lh ELSE @,
                                 !.dummy = IF cyc.s.dummy THEN 0 ELSE @,    \* cleared only if the view showed it
-                                !.res = IF SSub THEN @ ELSE [h \in H |-> IF cyc.res[h] # 0 THEN cyc.res[h] ELSE @[h]]]
+                                !.res = IF SSub THEN @ ELSE [h \in H |-> IF cyc.res[h] # 0 THEN cyc.res[h] ELSE @[h]],
+                                !.evres = IF SSub \/ cyc.evres = 0 THEN @ ELSE cyc.evres]
               \* (a record written after an invocation carries new timestamps: the object changes even if the abstract record is the same)
               changed == o2 # obj \/ \E h \in cyc.inv : r.prog[h] = "store"
           IN /\ IF changed THEN Commit(o2) ELSE UNCHANGED <<obj, chan>>
              /\ cyc' = [cyc EXCEPT !.fresh = obj'.rv, !.rv = obj'.rv, !.ffins = obj'.fins]
-             /\ pc' = IF SSub /\ (\E h \in H : cyc.res[h] # 0) THEN "r2" ELSE "r1done"
+             /\ pc' = IF SSub /\ ((\E h \in H : cyc.res[h] # 0) \/ cyc.evres # 0) THEN "r2" ELSE "r1done"
              /\ gh' = [gh EXCEPT !.succ = IF r.closing /\ changed THEN [h \in H |-> 0] ELSE @,
                                  \* F8: the cycle is closed on the essence of THIS view; a handler of the cycle may have seen an older one
                                  !.f8 = IF r.closing /\ changed THEN \E h \in H : gh.cseen[h] \notin {0, cyc.s.ess} ELSE @,
@@ -557,7 +570,8 @@ SrvStatus ==
   /\ pc = "r2" /\ up
   /\ IF ~obj.exists
      THEN pc' = "post" /\ cyc' = [cyc EXCEPT !.rv = 0, !.rem = {}, !.delays = {}] /\ UNCHANGED <<obj, chan>>      \* 404: ends silently
-     ELSE LET o2 == [obj EXCEPT !.res = [h \in H |-> IF cyc.res[h] # 0 THEN cyc.res[h] ELSE @[h]]]
+     ELSE LET o2 == [obj EXCEPT !.res = [h \in H |-> IF cyc.res[h] # 0 THEN cyc.res[h] ELSE @[h]],
+                                !.evres = IF cyc.evres = 0 THEN @ ELSE cyc.evres]
           IN /\ IF o2 # obj THEN Commit(o2) ELSE UNCHANGED <<obj, chan>>
              /\ cyc' = [cyc EXCEPT !.fresh = obj'.rv, !.rv = obj'.rv, !.ffins = obj'.fins]
              /\ pc' = "r1done"
@@ -591,20 +605,47 @@ SrvJson ==
   /\ UNCHANGED conf
 
 \* back in apply(): with a patch applied there is no sleep (its echo re-triggers the cycle); the processor returns
-\* the patched version to the worker, which restarts the consistency waiting
+\* the patched version to the worker, which restarts the consistency waiting.
+\* A patch that the server answered with the version the view already had has changed nothing (the same results as before, say):
+\* no echo will come, so the delays are slept as if there had been no patch (since fix F35; NoopSleeps = FALSE is the code before it,
+\* see MC_Handling_res_ev_f35.cfg: a handler waiting for its retry is then never called again).
+NoopSleeps == TRUE
+\* Such a patch gives nothing to expect either: the version it returns is the one already seen, and it will not come again (since fix
+\* F36; NoopExpects = TRUE is the code before it, see MC_Handling_res_ev_f36.cfg: the worker then waits for that version in vain, and
+\* with a patch accumulated in every cycle even the elapsed timeout does not help -- a change made meanwhile is not handled).
+NoopExpects == FALSE
+RetRv == IF ~NoopExpects /\ cyc.rv = cyc.s.rv THEN 0 ELSE cyc.rv      \* what the processor returns to the worker
+\* (a zero delay is not slept after a patch, and not touched either -- as before)
+NoopPatch == NoopSleeps /\ cyc.delays # {} /\ MinOf(cyc.delays) > 0 /\ cyc.rv # 0 /\ cyc.rv = cyc.s.rv
 Post ==
-  /\ pc = "post" /\ up
+  /\ pc = "post" /\ up /\ ~NoopPatch
   /\ mem' = IF cyc.gone THEN mem ELSE [mem EXCEPT !.rem = cyc.rem]
-  /\ wk' = IF cyc.rv # 0 /\ CTimeout > 0 THEN [wk EXCEPT !.exp = cyc.rv, !.ctime = now + CTimeout] ELSE wk
+  /\ LET wk1 == IF RetRv # 0 /\ CTimeout > 0 THEN [wk EXCEPT !.exp = RetRv, !.ctime = now + CTimeout] ELSE wk
+     IN wk' = [wk1 EXCEPT !.since = IF wk1.exp # 0 THEN now ELSE 0, !.lost = IF wk1.exp # wk.exp THEN 0 ELSE @]      \* (the worker goes waiting for the next event)
   /\ pc' = "idle" /\ cyc' = NoCyc
-  /\ gh' = IF cyc.rv # 0 /\ cyc.rv # NeverRv THEN [gh EXCEPT !.ownrv = cyc.rv, !.owntime = now] ELSE gh
+  /\ gh' = IF RetRv # 0 /\ RetRv # NeverRv THEN [gh EXCEPT !.ownrv = RetRv, !.owntime = now] ELSE gh
   /\ UNCHANGED <<obj, chan, bl, up, stopping, now, bud>>
+  /\ UNCHANGED conf
+
+PostNoop ==       \* the patch was a no-op: sleep as without a patch
+  /\ pc = "post" /\ up /\ NoopPatch
+  /\ pc' = "sleep" /\ cyc' = [cyc EXCEPT !.wake = now + MinOf(cyc.delays)]
+  /\ UNCHANGED <<obj, chan, bl, up, stopping, mem, wk, now, bud, gh>>
   /\ UNCHANGED conf
 
 SleepWake ==      \* new events arrived: the sleep is interrupted, no touch
   /\ up /\ pc = "sleep" /\ wk.pr
-  /\ pc' = "post" /\ UNCHANGED cyc
+  /\ pc' = "post" /\ cyc' = [cyc EXCEPT !.delays = {}]
   /\ UNCHANGED <<obj, chan, bl, up, stopping, mem, wk, now, bud, gh>>
+  /\ UNCHANGED conf
+
+\* a worker that has got nothing for the idle timeout -- and not before the consistency time of a version it expects -- ends; the
+\* next event starts a new one, which expects nothing (only an expectation makes the difference: nothing else is the worker's own)
+WorkerExit ==
+  /\ up /\ pc = "idle" /\ bl = <<>> /\ ~wk.eos /\ wk.exp # 0
+  /\ now >= wk.ctime /\ now >= wk.since + IdleT
+  /\ wk' = [FreshWk EXCEPT !.lost = wk.exp]
+  /\ UNCHANGED <<obj, chan, bl, up, stopping, mem, pc, cyc, now, bud, gh>>
   /\ UNCHANGED conf
 
 SleepExpire ==    \* slept in full: touch the object to trigger the next cycle
@@ -679,7 +720,7 @@ DStep == \E h \in DHs : DEnter(h) \/ DSeeFlag(h) \/ DCancelled(h) \/ DExit(h) \/
 (* Time: the clock may not pass a moment at which the operator has         *)
 (* something to do.                                                        *)
 (***************************************************************************)
-OpStep == ProcBegin \/ CWaitWoken \/ CWaitTimeout \/ Invoke \/ ProcFinish \/ SrvMerge \/ SrvStatus \/ Reply1 \/ SrvJson \/ Post
+OpStep == ProcBegin \/ CWaitWoken \/ CWaitTimeout \/ Invoke \/ ProcFinish \/ SrvMerge \/ SrvStatus \/ Reply1 \/ SrvJson \/ Post \/ PostNoop
           \/ SleepWake \/ SleepExpire \/ SrvTouch \/ DaemonOpStep
 \* Not urgent: Down (the process exits some time after a graceful stop) and Deliver (how long the stream
 \* takes to hand over a committed change -- the echo delay of C07 -- is up to the environment)
@@ -693,9 +734,9 @@ Tick ==
 
 EnvStep == (\E e \in EssVals : UserEdit(e) \/ Toggle(e)) \/ UserDelete \/ (\E f \in Foreign : ForeignAdd(f) \/ ForeignDel(f))
            \/ Kill \/ Stop \/ ExitBegin \/ Start \/ Relist
-Next == OpStep \/ DStep \/ Deliver \/ EnvStep \/ Down \/ Tick
+Next == OpStep \/ DStep \/ Deliver \/ EnvStep \/ Down \/ Tick \/ WorkerExit
 SafeSpec == Init /\ [][Next]_vars
-Spec == Init /\ [][Next]_vars /\ WF_vars(OpStep) /\ WF_vars(Deliver) /\ WF_vars(Tick) /\ WF_vars(Start)
+Spec == Init /\ [][Next]_vars /\ WF_vars(OpStep) /\ WF_vars(Deliver) /\ WF_vars(Tick) /\ WF_vars(Start) /\ WF_vars(WorkerExit)
 
 (***************************************************************************)
 (* Properties                                                              *)
